@@ -329,7 +329,7 @@ def regression_cases():
 
 def ann_line(case, fr):
     how, sec, usec, b = fr
-    return f"ann {case['dlt']} {how} {','.join(CLASSES[case['dlt']] + ['RawPDU'])} {hexs(b)} f={case['filter']}"
+    return f"ann {case['dlt']} {how} {hexs(b)} f={case['filter']}"
 
 
 def probe_filters(exe, dlts):
@@ -337,9 +337,9 @@ def probe_filters(exe, dlts):
     lines, keys = [], []
     for d in dlts:
         for f in FILTERS:
-            lines.append(f"ann {d} raw RawPDU 00 f={f}")
+            lines.append(f"ann {d} raw 00 f={f}")
             keys.append((d, f))
-    res, _ = core.run_harness_lines(exe, ["annotate", os.path.join(core.WORK, "tmp")], lines, ("ann",))
+    res, _ = core.run_harness_lines(exe, ["annotate", os.path.join(core.WORK, "tmp")], lines, ("ann", "annp"))
     ok = {}
     for (d, f), r in zip(keys, res):
         if " m=-1" not in r and " mo=-1" not in r and r.startswith("s="):
@@ -348,28 +348,54 @@ def probe_filters(exe, dlts):
 
 
 def build_ops(chk, exe, cases, excluded):
-    """annotate every frame through the direct calls, drop the frames whose direct dissection crashes (those are
-    findings of the dissector properties, not of the capture loop), emit the op lines"""
+    """annotate every frame through direct calls (pass 1: what the writer will store and what libpcap's filter says;
+    pass 2: what the dissector constructors say about the stored bytes) and emit the op lines.  A frame whose direct
+    dissection crashes is a finding of the dissector properties, not of the capture loop: it is dropped and counted.
+    A crash while serializing a plain RawPDU is on the writer's own path: the frame stays in, so the check reports it."""
+    args = ["annotate", os.path.join(core.WORK, "tmp")]
     lines, where = [], []
     for ci, c in enumerate(cases):
         for fi, fr in enumerate(c["frames"]):
             lines.append(ann_line(c, fr))
             where.append((ci, fi))
-    res, faults = core.run_harness_lines(exe, ["annotate", os.path.join(core.WORK, "tmp")], lines, ("ann",)) if lines else ([], [])
-    anns = {}
-    for (ci, fi), r in zip(where, res):
-        anns[(ci, fi)] = r
+    res, _ = core.run_harness_lines(exe, args, lines, ("ann", "annp")) if lines else ([], [])
+    ann1 = dict(zip(where, res))
+    lines2, where2 = [], []
+    for key in where:
+        a = ann1.get(key, "")
+        if a.startswith("s=") and not a.startswith("s=throw:"):
+            c = cases[key[0]]
+            lines2.append(f"annp {','.join(CLASSES[c['dlt']] + ['RawPDU'])} {a.split(' ')[0][2:]}")
+            where2.append(key)
+    res2, _ = core.run_harness_lines(exe, args, lines2, ("ann", "annp")) if lines2 else ([], [])
+    ann2 = dict(zip(where2, res2))
+
+    def drop(tag, a):
+        key = tag + " " + (a.split(" ")[1].split("@")[-1] if a.startswith("FAULT") and " " in a else a.split(" ")[0])
+        excluded[key] = excluded.get(key, 0) + 1
+
     ops = []
     for ci, c in enumerate(cases):
         ops.append(f"file {c['tok']} {c['method']}")
         kept = 0
         for fi, (how, sec, usec, b) in enumerate(c["frames"]):
-            a = anns.get((ci, fi), "")
-            if not a.startswith("s="):
-                key = a.split(" ")[0] + " " + (a.split(" ")[1].split("@")[0] if a.startswith("FAULT") and " " in a else "")
-                excluded[key.strip()] = excluded.get(key.strip(), 0) + 1
+            a = ann1.get((ci, fi), "")
+            if a.startswith("s=throw:"):
+                ops.append(f"w {how} {sec} {usec} {hexs(b)} | {a}")
                 continue
-            ops.append(f"w {how} {sec} {usec} {hexs(b)} | {a}")
+            if not a.startswith("s="):
+                if how == "raw":
+                    # the writer's own path (RawPDU::serialize, pcap) failed in the direct call: keep the frame
+                    ops.append(f"w {how} {sec} {usec} {hexs(b)} | s={hexs(b)} adv={len(b)} m=1 mo=1 p:RawPDU=ok:0/{len(b)}/0")
+                    kept += 1
+                else:
+                    drop("write-side", a)
+                continue
+            p = ann2.get((ci, fi), "")
+            if not p.startswith("p:"):
+                drop("dissector", p)
+                continue
+            ops.append(f"w {how} {sec} {usec} {hexs(b)} | {a} {p}")
             kept += 1
         ops += c["tail"](kept) if callable(c.get("tail")) else c.get("tail", [])
     return ops
@@ -400,6 +426,8 @@ def sig_of(kind, detail, case):
         clause = " ".join(detail.split(" ")[1:2])
     elif kind == "fault":
         clause = detail.split(" ", 1)[1] if " " in detail else detail
+    if kind == "fault":
+        return {"kind": kind, "clause": clause}
     return {"kind": kind, "clause": clause, "lt": tok, "op": last}
 
 
@@ -443,15 +471,15 @@ def run(chk):
     # frames of unsupported DLTs cannot be annotated with CLASSES; they have no frames
     run_batch(reg)
     # 2. seeded random cases
-    ncases = 260 if not thorough else 6000
-    batch = 130 if not thorough else 500
+    ncases = 4000 if not thorough else 60000
+    batch = 500 if not thorough else 1000
     done = 0
     while done < ncases:
         k = min(batch, ncases - done)
         run_batch([gen_case(rng, toks, valid_filters, thorough) for _ in range(k)])
         done += k
     # 3. long captures (up to 10^3 frames) and large frames
-    nbig = 1 if not thorough else 12
+    nbig = 3 if not thorough else 40
     run_batch([gen_case(rng, toks, valid_filters, thorough, big=True) for _ in range(nbig)])
     if thorough:
         sizes = [1500, 9000, 65535, 65536, 65549, 100000, 262144]
